@@ -47,6 +47,12 @@ def run_task(ctx, name):
     return r
 
 # ---------------------------------------------------------------------------------------------
+# Helper contracts that are STRONGER than any property statement (they pin the Jacobian representative, which the group
+# properties leave free).  They exist because the line-function proofs of C02 call the group operations through these
+# exact contracts.  They are attached only to the properties whose proofs depend on them, and a failure is reported as
+# UNDECIDED (the dependants can no longer be decided), never as a violation: the property itself may still hold.
+AUX_CLAUSES = {'z_is_z1_h': ['C02'], 'z_is_2yz': ['C02'], 'same_x_z_negated_y': ['C02'], 'exact_identity_0_1_0': ['C02', 'C05', 'C16']}
+
 def task_mirvc(ctx, module):
     import vc
     funcs = load_mir(ctx)
@@ -55,11 +61,21 @@ def task_mirvc(ctx, module):
     violations = []
     for spec in (mod.build(funcs) if hasattr(mod, 'build') else mod.SPECS):
         r = vc.verify_function(funcs, spec, seed=ctx.seed)
+        real_refuted = False
         for o in r.obligations:
-            obligations.append(dict(id='mirvc/' + o['id'], status=o['status'], detail=o['detail'], seconds=o['seconds'],
+            clause = o['id'].rsplit('/', 1)[-1]
+            st, detail, oprops = o['status'], o['detail'], list(spec.prop)
+            if clause in AUX_CLAUSES:
+                oprops = list(AUX_CLAUSES[clause])
+                if st in ('refuted', 'failed'):
+                    st = 'undecided'
+                    detail = 'helper contract (exact representative, stronger than the property) no longer holds; proofs that call this function through it cannot be decided: ' + str(detail)
+            elif st == 'refuted':
+                real_refuted = True
+            obligations.append(dict(id='mirvc/' + o['id'], status=st, detail=detail, seconds=o['seconds'],
                                     engine='E3 mirvc (WP over rustc MIR)', backend='ring normaliser + nu-elimination (mirvc/facts.py); sympy factorisation re-checked by multiplication',
-                                    function=spec.fid, props=list(spec.prop), cex=o.get('cex')))
-        if r.status == 'refuted' and spec.hook:
+                                    function=spec.fid, props=oprops, cex=o.get('cex'), aux=clause in AUX_CLAUSES))
+        if r.status == 'refuted' and real_refuted and spec.hook:
             # attach a concrete failing input on the real code
             try:
                 import search
@@ -249,6 +265,9 @@ def task_pairsearch(ctx, arg):
 VERUS_PROPS = {'divrem': ['C06', 'C07', 'C12', 'C13'], 'invr': ['C06', 'C07', 'C13'], 'inv': ['C06', 'C07', 'C12', 'C13'], 'fp': ['C06', 'C07', 'C12', 'C13'], 'fpr': ['C06', 'C07', 'C13'],
                'mul': ['C06', 'C07', 'C12', 'C13'], 'sop': ['C06', 'C07', 'C12', 'C13'], 'square': ['C06', 'C07', 'C12']}
 
+# functions of the Verus chains that other properties hand over to (tagged onto those properties only)
+VERUS_FN_EXTRA = {'bititer_next': ['C05', 'C11'], 'u256_get_bit': ['C05', 'C11'], 'u256_bits': ['C05', 'C11'], 'fq_into_u256': ['C05', 'C11'], 'fq_div2': ['C14'], 'div2': ['C14']}
+
 def task_verus(ctx, unit):
     import re, tempfile, shutil
     sys.path.insert(0, os.path.join(VERIF, 'verus'))
@@ -262,8 +281,21 @@ def task_verus(ctx, unit):
         scan = []
         if os.path.exists(full):
             ftxt = open(full).read()
-            for m in re.finditer(r'^\s*(?:pub )?(?:const )?(proof fn|fn) (\w+)', ftxt, re.M):
-                names.append((m.group(2), m.group(1)))
+            # one obligation per function item; functions inside a region //@BEGIN marker .. //@END are named by the (unique) marker
+            region = None
+            for ln in ftxt.split('\n'):
+                mb = re.match(r'^//@BEGIN (\w+)', ln)
+                if mb:
+                    region = mb.group(1)
+                    continue
+                if ln.startswith('//@END'):
+                    region = None
+                    continue
+                m = re.match(r'^\s*(?:#\[[^\]]*\]\s*)?(?:pub )?(?:const )?(proof fn|fn) (\w+)', ln)
+                if m:
+                    nm = region if region else m.group(2)
+                    if (nm, m.group(1)) not in names:
+                        names.append((nm, m.group(1)))
             # mechanical scan for everything that is assumed rather than proved in the verified file
             ext = re.findall(r'#\[verifier::external_body\]\s*(?://@\s*)?\n\s*pub (?:const )?fn (\w+)', ftxt)
             scan.append('assumption scan verus/%s: external_body (assumed contract, ark-ff BigInt; Kani group arkff proves them on the portable code): %s' % (unit, ', '.join(sorted(set(ext))) or 'none'))
@@ -282,17 +314,19 @@ def task_verus(ctx, unit):
     base = dict(engine='E1 Verus 0.2026.09.13 on the extracted text (erasure: %s)' % r.get('erasure'), backend='Z3 (via Verus)', props=props)
     if r['status'] == 'discharged':
         for n, kind in names:
-            obligations.append(dict(base, id='verus/%s/%s' % (unit, n), status='discharged', function=n, seconds=round(r['seconds'] / max(1, len(names)), 3),
+            obligations.append(dict(base, props=props + VERUS_FN_EXTRA.get(n, []), id='verus/%s/%s' % (unit, n), status='discharged', function=n, seconds=round(r['seconds'] / max(1, len(names)), 3),
                                     detail=('real function body: requires/ensures, loop invariants, overflow and index checks' if n in r.get('functions', []) else ('lemma' if kind == 'proof fn' else 'helper with contract'))))
     else:
         tgt = r.get('functions') or [unit]
         for n in tgt:
             if r['status'] == 'failed':
                 # Verus ran: functions without an error are verified, those named in an error failed
-                st = 'failed' if (n in failed_fns or not failed_fns) else 'discharged'
+                # (a failure that cannot be attributed to one of the extracted functions - e.g. in a lemma - fails them all)
+                attributed = failed_fns & set(tgt)
+                st = 'failed' if (n in failed_fns or not attributed) else 'discharged'
             else:
                 st = 'undecided'
-            obligations.append(dict(base, id='verus/%s/%s' % (unit, n), status=st, function=n, seconds=r.get('seconds', 0),
+            obligations.append(dict(base, props=props + VERUS_FN_EXTRA.get(n, []), id='verus/%s/%s' % (unit, n), status=st, function=n, seconds=r.get('seconds', 0),
                                     detail=(r.get('detail') or '')[:600] + ' [annotation re-attached to the edited text]' * (r.get('erasure') == 'merged')))
     return dict(obligations=obligations, notes=scan + r.get('notes', []))
 
